@@ -90,12 +90,14 @@ pub fn raw_dg_big(max_order: usize) -> impl Strategy<Value = RawDg> {
     raw_dg_big_rate(max_order, 24)
 }
 
-/// Like `raw_dg`, with one case in `ordinary + 1` at one of `BIG_ORDERS`.
+/// Like `raw_dg`, with one case in `ordinary + 1` at a large order: half of
+/// them at one of `BIG_ORDERS`, half uniform in 17..=140.
 pub fn raw_dg_big_rate(max_order: usize, ordinary: u32) -> impl Strategy<Value = RawDg> {
     raw_dg_orders(
         prop_oneof![
-            ordinary => order_strategy(max_order),
+            2 * ordinary => order_strategy(max_order),
             1 => proptest::sample::select(BIG_ORDERS.to_vec()),
+            1 => 17..=140_usize,
         ]
         .boxed(),
         max_order,
